@@ -12,7 +12,7 @@ use std::io::{ErrorKind, Read, Write};
 pub static DEF: PropDef = PropDef {
     id: "C13",
     level: "fault_enumeration",
-    rule: "cases: containers E = expand_zlib_chunks(F) for files F from the container generator, fed to \
+    rule: "cases: containers E = expand_zlib_chunks(F) for files F from the container generator (5 % with a literal run of 64 KiB..210 KiB in front), fed to \
 recreated_zlib_chunks through instrumented Read/Write objects. (i) fragmentation: generated per-call read sizes \
 (always-1, powers of two +-1, generated cycles; never Ok(0) before EOF) x generated partial-write acceptance patterns: \
 output must equal F. (ii) one injected error (Other, BrokenPipe, WouldBlock, UnexpectedEof, WriteZero, with short / long ASCII / long multi-byte UTF-8 message payloads; never Interrupted, \
@@ -414,7 +414,18 @@ fn eval_dna(dna_bytes: &[u8], ctx: &mut Ctx) -> Result<(), (Failure, Value)> {
     let mut dna = Dna::new(dna_bytes);
     // plans are read first so they do not depend on how much DNA the file eats
     let plan_dna: Vec<u8> = dna.bytes(120);
-    let fc = gen_file_opts(&mut dna, true);
+    let mut fc = gen_file_opts(&mut dna, true);
+    if dna.chance(5) {
+        // a literal run longer than any internal copy buffer (64 KiB and beyond) in front of
+        // the generated file
+        let n = [65_535usize, 65_536, 65_537, 131_072, 131_073][dna.below(5)].max(dna.range(65_000, 210_000));
+        let mut m = crate::dna::Mix::new(dna.u64());
+        let mut bytes: Vec<u8> = (0..n).map(|_| crate::gen_file::safe_junk_byte(&mut m)).collect();
+        bytes.extend_from_slice(&fc.bytes);
+        fc.bytes = bytes;
+        fc.labels.push("file:literal-run>=64KiB".into());
+        fc.desc = format!("{} literal bytes + {}", n, fc.desc);
+    }
     ctx.set_inflight(&json!({"kind":"c13-file","file_hex":hex(&fc.bytes)}));
     let e = match lib_expand(&fc.bytes) {
         Ok(Ok(e)) => e,
